@@ -23,6 +23,9 @@ Inductive assumption :=
 | CallInGo (callee : string) (b : bool)
     (* there is a call fact of callee, and every one is (b = true) / is not (b = false)
        inside the operand of a go statement *)
+| CallFree (callee lock : string)
+    (* there is a call fact of callee, and none is made with lock held (in any mode): a
+       blocking operation that the model performs as a step of its own, outside the section *)
 | FieldHolds (ty fd lock : string).
     (* there is a non-fresh access fact of ty.fd, and every one holds lock exclusively *)
 
@@ -44,6 +47,8 @@ Definition call_violates (a : assumption) (c : call_fact) : bool :=
       String.eqb (k_callee c) callee && negb (chow_eqb how (k_how c) && String.eqb caller (k_caller c))
   | CallAfterWrite callee f => String.eqb (k_callee c) callee && negb (str_in f (k_written c))
   | CallInGo callee b => String.eqb (k_callee c) callee && negb (Bool.eqb b (k_in_go c))
+  | CallFree callee l =>
+      String.eqb (k_callee c) callee && (has_lock l MW (k_locks c) || has_lock l MR (k_locks c))
   | FieldHolds _ _ _ => false
   end.
 
@@ -57,7 +62,8 @@ Definition access_violates (a : assumption) (f : access_fact) : bool :=
 
 Definition subject_present (a : assumption) (calls : list call_fact) (accs : list access_fact) : bool :=
   match a with
-  | CallHolds callee _ | UsesWithin callee _ | CallAfterWrite callee _ | CallInGo callee _ =>
+  | CallHolds callee _ | UsesWithin callee _ | CallAfterWrite callee _ | CallInGo callee _
+  | CallFree callee _ =>
       nonempty (facts_of callee calls)
   | UsedExactlyOnce callee _ _ => Nat.eqb (List.length (facts_of callee calls)) 1
   | FieldHolds ty fd _ =>
@@ -92,7 +98,7 @@ Definition failing (calls : list call_fact) (accs : list access_fact) (asms : li
    Timer            awaitBatch timer branch: ONE critical section of    W7, W10, W11
                     ptw.mutex: if currBatch == batch { Put; currBatch
                     = nil }
-   Get, SenderExit  queue.Get by the one sender goroutine               W12, W13
+   Get, SenderExit  queue.Get by the one sender goroutine               W12
    Attempt, Finish  writeBatch / produce / complete by the sender       W14-W16
    Return           <-batch.done after complete wrote batch.err         W17
    CloseMark        Close: one section of w.mutex: closed = true,       W2, W18-W20
@@ -122,7 +128,6 @@ Definition writer_assumptions : list assumption := [
                                           (HCall, "partitionWriter.awaitBatch");
                                           (HCall, "partitionWriter.close")];
   (* W12 *) UsedExactlyOnce "batchQueue.Get" HCall "partitionWriter.writeBatches";
-  (* W13 *) CallInGo "batchQueue.Get" false;   (* called by writeBatches itself, not by a helper goroutine *)
   (* W14 *) UsedExactlyOnce "partitionWriter.writeBatch" HCall "partitionWriter.writeBatches";
   (* W15 *) UsedExactlyOnce "Writer.produce" HCall "partitionWriter.writeBatch";
   (* W16 *) UsedExactlyOnce "writeBatch.complete" HCall "partitionWriter.writeBatch";
@@ -142,3 +147,50 @@ Definition writer_assumptions : list assumption := [
 
 Definition writer_assumptions_hold (calls : list call_fact) (accs : list access_fact) : bool :=
   calls_ok calls accs writer_assumptions.
+
+(* ------------------------------------------------- consumer group (Model/ConsumerGroup.v)
+   Label / control point      Go code                                        assumption
+   Start (accounted or not)   Generation.Start: one section of g.lock:        G1, G2, G10
+                              closed? routines++; go func
+   function exit              Start's goroutine epilogue: one section of       G1-G4
+                              g.lock: close(done) once, routines--, last one
+                              closes joined
+   PCloseLock / PCloseWait    Generation.close: section of g.lock (close(done)  G1-G3, G5, G6
+                              once, read routines), THEN <-joined outside it
+   PPublish / POffer          cg.next <- gen, cg.errs <- err by the run         G8, G9
+                              goroutine only
+   run goroutine              started once by NewConsumerGroup, accounted by    G7, G11
+                              cg.wg; Close: closeOnce.Do(close(done)); wg.Wait *)
+Definition consumergroup_assumptions : list assumption := [
+  (* G1  *) FieldHolds "Generation" "routines" "Generation.lock";
+  (* G2  *) FieldHolds "Generation" "closed" "Generation.lock";
+  (* G3  *) UsesWithin "close(Generation.done)" [(HCall, "Generation.close"); (HCall, "Generation.Start$1")];
+            CallHolds "close(Generation.done)" "Generation.lock";
+  (* G4  *) UsedExactlyOnce "close(Generation.joined)" HCall "Generation.Start$1";
+            CallHolds "close(Generation.joined)" "Generation.lock";
+            CallAfterWrite "close(Generation.joined)" "Generation.routines";
+            CallInGo "close(Generation.joined)" true;
+  (* G5  *) UsedExactlyOnce "recv(Generation.joined)" HCall "Generation.close";
+            CallFree "recv(Generation.joined)" "Generation.lock";
+  (* G6  *) UsesWithin "Generation.close" [(HCall, "ConsumerGroup.nextGeneration")];
+            CallFree "Generation.close" "Generation.lock";
+  (* G7  *) UsedExactlyOnce "ConsumerGroup.run" HCall "NewConsumerGroup$1";
+            CallInGo "ConsumerGroup.run" true;
+            UsedExactlyOnce "ConsumerGroup.nextGeneration" HCall "ConsumerGroup.run";
+            UsesWithin "ConsumerGroup.leaveGroup" [(HCall, "ConsumerGroup.run")];
+  (* G8  *) UsedExactlyOnce "close(ConsumerGroup.done)" HCall "ConsumerGroup.Close$1";
+            UsedExactlyOnce "ConsumerGroup.closeOnce.Do" HCall "ConsumerGroup.Close";
+  (* G9  *) UsedExactlyOnce "send(ConsumerGroup.next)" HCall "ConsumerGroup.nextGeneration";
+            UsedExactlyOnce "send(ConsumerGroup.errs)" HCall "ConsumerGroup.run";
+            UsesWithin "recv(ConsumerGroup.next)" [(HCall, "ConsumerGroup.Next")];
+            UsesWithin "recv(ConsumerGroup.errs)" [(HCall, "ConsumerGroup.Next")];
+  (* G10 *) UsesWithin "Generation.Start" [(HCall, "Generation.heartbeatLoop"); (HCall, "Generation.partitionWatcher");
+                                            (HCall, "Reader.run")];
+            CallFree "Generation.Start" "Generation.lock";
+  (* G11 *) UsedExactlyOnce "ConsumerGroup.wg.Add" HCall "NewConsumerGroup";
+            UsedExactlyOnce "ConsumerGroup.wg.Done" HCall "NewConsumerGroup$1";
+            UsedExactlyOnce "ConsumerGroup.wg.Wait" HCall "ConsumerGroup.Close"
+].
+
+Definition consumergroup_assumptions_hold (calls : list call_fact) (accs : list access_fact) : bool :=
+  calls_ok calls accs consumergroup_assumptions.
